@@ -119,6 +119,29 @@ def r2_label_discipline(ctx, T, rule="C02.R2"):
     ctx.require(rule, 25)
 
 
+def _frame_path_verdict(seq):
+    """One emission path of a generator that emits PushRegisters / PopRegisters: (ok, why)."""
+    kinds = [(e.kind, e.instr) for e in seq]
+    pu = [i for i, k in enumerate(kinds) if k == ("push", "PushRegisters")]
+    po = [i for i, k in enumerate(kinds) if k == ("push", "PopRegisters")]
+    if len(pu) != len(po) or len(pu) > 1:
+        return False, "unpaired PushRegisters/PopRegisters on a path"
+    if not pu:
+        return True, ""
+    ok, why = True, ""
+    i, j = pu[0], po[0]
+    inner = seq[i + 1:j]
+    blocks = [e for e in inner if e.kind == "BLOCK"]
+    if i > j or len(blocks) != 1:
+        ok, why = False, "the frame does not bracket exactly one user block"
+    if any(e.kind in ("jump", "jump_if_false", "label") for e in inner):
+        ok, why = False, "a generated jump or label sits inside the register frame"
+    bi = inner.index(blocks[0]) if blocks else -1
+    if blocks and not any(e.kind == "mark" for e in inner[bi + 1:]):
+        ok, why = False, "no statement mark between the block and PopRegisters"
+    return ok, why
+
+
 def r3_register_frames(ctx, T, rule="C02.R3"):
     prog = ctx.prog
     n = 0
@@ -131,26 +154,24 @@ def r3_register_frames(ctx, T, rule="C02.R3"):
         ok = True
         why = ""
         for seq in emit.linear_paths(f.body, evs):
-            kinds = [(e.kind, e.instr) for e in seq]
-            pu = [i for i, k in enumerate(kinds) if k == ("push", "PushRegisters")]
-            po = [i for i, k in enumerate(kinds) if k == ("push", "PopRegisters")]
-            if len(pu) != len(po) or len(pu) > 1:
-                ok, why = False, "unpaired PushRegisters/PopRegisters on a path"
-                continue
-            if not pu:
-                continue
-            i, j = pu[0], po[0]
-            inner = seq[i + 1:j]
-            blocks = [e for e in inner if e.kind == "BLOCK"]
-            if i > j or len(blocks) != 1:
-                ok, why = False, "the frame does not bracket exactly one user block"
-            if any(e.kind in ("jump", "jump_if_false", "label") for e in inner):
-                ok, why = False, "a generated jump or label sits inside the register frame"
-            bi = inner.index(blocks[0]) if blocks else -1
-            if blocks and not any(e.kind == "mark" for e in inner[bi + 1:]):
-                ok, why = False, "no statement mark between the block and PopRegisters"
+            o, w = _frame_path_verdict(seq)
+            if not o:
+                ok, why = False, w
         ctx.decide(ok, rule, "%s:%s" % (rule, f.name), f.loc, "PushRegisters; BLOCK; mark; PopRegisters",
                    "%s: %s" % (f.name, why))
+    if not n:
+        # no construct keeps loop state in a register frame any more (FOR keeps its limit and step in
+        # variables of their own): nothing to pair.  The judge of a path is exercised on synthetic
+        # paths so that a frame that comes back is still judged
+        E = emit.Ev
+        good = [E("push", 0, 0, instr="PushRegisters"), E("BLOCK", 1, 0), E("mark", 2, 0), E("push", 3, 0, instr="PopRegisters")]
+        nomark = [good[0], good[1], good[3]]
+        unpaired = [good[0], good[1], good[2]]
+        if not (_frame_path_verdict(good)[0] and not _frame_path_verdict(nomark)[0] and not _frame_path_verdict(unpaired)[0]):
+            raise CheckError("%s: self-test of the register-frame judge failed" % rule)
+        ctx.ok(rule, rule + ":no-register-frame-is-emitted", "instruction_generator",
+               "no generator emits PushRegisters / PopRegisters (%d generator functions looked at); "
+               "the judge of a frame passed its self-test on 3 synthetic paths" % len(emit.generator_fns(prog)))
     ctx.require(rule, 1)
 
 
@@ -169,7 +190,8 @@ def _loop_emitters(prog, T):
                 elif e.kind == "jump" and e.name in seen:
                     heads.add(e.name)
         if heads:
-            is_for = any(e.kind == "push" and e.instr == "PushRegisters" for e in evs.values())
+            # the FOR template: the loop emitter that the ForLoop arm of the statement dispatcher reaches
+            is_for = common.generator_construct_of(prog, f) == "ForLoop"
             out.append((f, sorted(heads)[0], is_for))
     return out
 
@@ -262,7 +284,7 @@ def r4_loop_templates(ctx, T, rule="C02.R4"):
                    % "/".join(sorted(polarities)), "%s: %s" % (f.name, why))
     # FOR: the helper jumps back to its own loop label and exits to out-of-for
     if len(for_helpers) != 1:
-        raise CheckError("%s: expected one emitter with a back edge and a register frame (FOR), found %d"
+        raise CheckError("%s: expected one emitter with a back edge under the ForLoop arm (FOR), found %d"
                          % (rule, len(for_helpers)))
     f = for_helpers[0]
     evs = T.evs(f)
@@ -599,16 +621,62 @@ def _gen_register_writes(prog, T, f, table, memo, depth=0):
     return out
 
 
+def _cell_emitters(prog, T, _memo={}):
+    """generator functions that do nothing but store A into / load A from the variable named by one of
+    their parameters: ({fn id: arg index} stores, {fn id: arg index} loads).  Found by what they emit."""
+    if id(prog) in _memo:
+        return _memo[id(prog)]
+    stores, loads = {}, {}
+    for f in emit.generator_fns(prog):
+        seqs = emit.linear_paths(f.body, T.evs(f))
+        if len(seqs) != 1:
+            continue
+        seq = [e for e in seqs[0] if e.kind != "mark"]
+        ins = [e.instr if e.kind == "push" else None for e in seq]
+        if not ins or ins[0] != "VarPathName" or not seq[0].payload:
+            continue
+        o = mir.strip_all(seq[0].payload[0])
+        if o[0] == "agg" and o[3]:
+            o = mir.strip_all(o[3][0])
+        if o[0] != "param":
+            continue
+        if ins == ["VarPathName", "CopyAToVarPath"]:
+            stores[f.id] = o[1]
+        elif ins == ["VarPathName", "CopyVarPathToA", "PopVarPath"]:
+            loads[f.id] = o[1]
+    _memo[id(prog)] = (stores, loads)
+    return stores, loads
+
+
+def _cell_key(o):
+    """the variable a Name-valued origin stands for, looked at through references, clones and Option"""
+    while True:
+        o = mir.strip_all(o)
+        if o[0] == "agg" and (o[2] or "").endswith("::Some") and o[3]:
+            o = o[3][0]
+        elif o[0] == "field" and mir.strip_all(o[1])[0] == "downcast" and mir.strip_all(o[1])[2] == "Some":
+            o = mir.strip_all(o[1])[1]
+        else:
+            return o
+
+
 def _register_terms(prog, T, f, table, entry):
     """Symbolic values of the VM registers along every emission path of f: yields
     (event, registers before the event).  Copies move terms, Cast wraps A, PushRegisters /
-    PopRegisters save and restore the four registers, the value stack is a stack of terms."""
+    PopRegisters save and restore the four registers, the value stack is a stack of terms, and a
+    variable of the generator's own making (stored / loaded through an emitter that does nothing
+    else) is a cell that holds the term stored last (regs["cells"]); such a variable cannot be
+    written by user code (C02.R12)."""
     memo = {}
+    cstores, cloads = _cell_emitters(prog, T)
     for seq in emit.linear_paths(f.body, T.evs(f)):
         regs = dict(entry)
+        cells = {}
         vstack, frames = [], []
         for i, e in enumerate(seq):
-            yield e, dict(regs), seq, i
+            snap = dict(regs)
+            snap["cells"] = dict(cells)
+            yield e, snap, seq, i
             if e.kind == "push":
                 ins = e.instr
                 m = re.match(r"^Copy([A-D])To([A-D])$", ins or "")
@@ -638,6 +706,13 @@ def _register_terms(prog, T, f, table, entry):
                 if not frames:
                     regs = {r: ("after-user-code", e.line) for r in "abcd"}
             elif e.kind == "gen" and e.callee is not None:
+                if e.callee.id in cstores and len(e.args) > cstores[e.callee.id]:
+                    cells[str(_cell_key(e.args[cstores[e.callee.id]]))] = regs["a"]
+                    continue
+                if e.callee.id in cloads and len(e.args) > cloads[e.callee.id]:
+                    k = _cell_key(e.args[cloads[e.callee.id]])
+                    regs["a"] = cells.get(str(k), ("cell@entry", str(k)))
+                    continue
                 if e.callee.name.startswith("generate_store") and common.evaluates_for_counter(prog, T, f, e):
                     continue
                 for w in _gen_register_writes(prog, T, e.callee, table, memo):
@@ -670,24 +745,39 @@ def r10_for_step_as_evaluated(ctx, T, rule="C02.R10"):
         seen_plus = False
         bad = None
         step_regs = set()
+        step_cells = set()
+
+        def cell_terms(t):
+            if isinstance(t, tuple):
+                if t and t[0] == "cell@entry":
+                    yield t[1]
+                for x in t[1:]:
+                    for y in cell_terms(x):
+                        yield y
+
         for e, regs, seq, i in _register_terms(prog, T, f, table, entry):
-            if e.kind == "push" and e.instr == "Plus" and any(
-                    x.kind == "push" and x.instr == "PopRegisters" for x in seq[:i]):
+            if e.kind == "push" and e.instr == "Plus" and any(x.kind == "BLOCK" for x in seq[:i]):
                 seen_plus = True
                 for r in "abcd":
                     if _mentions(regs["b"], r.upper() + "@entry"):
                         step_regs.add(r)
+                m = [re.match(r"^arg(\d+)$", c) for c in cell_terms(regs["b"])]
+                step_cells |= {int(x.group(1)) for x in m if x}
                 if _mentions(regs["b"], "Cast"):
                     bad = (e, regs["b"])
+                elif _mentions(regs["b"], "after-user-code") or _mentions(regs["b"], "unknown"):
+                    bad = (e, regs["b"])
         if not seen_plus:
-            raise CheckError("%s: no increment (Plus after PopRegisters) in %s" % (rule, f.name))
+            raise CheckError("%s: no increment (Plus after the body) in %s" % (rule, f.name))
+        if not step_regs and not step_cells:
+            raise CheckError("%s: the step of %s comes neither from a register nor from a variable handed in" % (rule, f.name))
         n += 1
         ctx.decide(bad is None, rule, "%s:%s:increment-adds-step-as-evaluated" % (rule, construct), f.loc,
-                   "the step reaches the increment through register moves only",
-                   "the FOR template converts the step before adding it (second operand of Plus at line %s is %s): "
+                   "the step reaches the increment through register moves / a variable of its own only",
+                   "the FOR template does not add the step as it was evaluated (second operand of Plus at line %s is %s): "
                    "the sum is converted again, so `FOR I%% = 10 TO 1 STEP -1.5` walks by -2 where the equivalent "
                    "WHILE with `I%% = I%% - 1.5` walks 10 9 8 7 ..." % (bad[0].line if bad else "", bad[1] if bad else ""))
-        # the callers: what they leave in the step register(s)
+        # the callers: what they leave in the step register(s) / the step variable
         for g in sorted(emit.generator_fns(prog), key=lambda x: x.id):
             if g.id == f.id or not any(e.kind == "gen" and e.callee is not None and e.callee.id == f.id
                                        for e in T.evs(g).values()):
@@ -698,15 +788,24 @@ def r10_for_step_as_evaluated(ctx, T, rule="C02.R10"):
             for e, regs, seq, i in _register_terms(prog, T, g, table, entry_g):
                 if e.kind == "gen" and e.callee is not None and e.callee.id == f.id:
                     calls += 1
-                    for r in step_regs or {"d"}:
+                    for r in step_regs:
                         if _mentions(regs[r], "Cast"):
                             worst = (e, regs[r])
+                    for k in step_cells:
+                        if len(e.args) <= k:
+                            continue
+                        key = _cell_key(e.args[k])
+                        if key[0] == "agg" and (key[2] or "").endswith("::None"):
+                            continue        # the STEP-less form: the template adds its own constant
+                        held = regs["cells"].get(str(key))
+                        if held is None or held[0] != "EXPR":
+                            worst = (e, held)
             n += 1
             ctx.decide(worst is None, rule, "%s:%s:step-register-holds-evaluated-step" % (rule, construct), g.loc,
-                       "the step register holds the step expression's value (or the constant of the STEP-less form)",
-                       "the step is converted before the loop starts (step register at the call in line %s holds %s): "
-                       "FOR with a fractional step on an integer counter no longer behaves like the equivalent "
-                       "WHILE" % (worst[0].line if worst else "", worst[1] if worst else ""))
+                       "the step register / variable holds the step expression's value (or the constant of the STEP-less form)",
+                       "the step is converted before the loop starts, or is not the evaluated STEP expression (at the call in "
+                       "line %s the step holds %s): FOR with a fractional step on an integer counter no longer behaves like the "
+                       "equivalent WHILE" % (worst[0].line if worst else "", worst[1] if worst else ""))
     ctx.analysed_units(rule, for_templates=[f.name for f in loops])
     ctx.require(rule, 2)
 
